@@ -155,6 +155,11 @@ class _InlineMethods:
                 return True
             if isinstance(x, ast.Attribute) and isinstance(x.ctx, ast.Store) and x.attr in self.ROLE_FIELDS:
                 return True
+            # the decision whether a part runs at all
+            if isinstance(x, ast.Call) and isinstance(x.func, ast.Attribute) and x.func.attr == 'has_any_code':
+                return True
+            if isinstance(x, ast.Subscript) and isinstance(x.slice, ast.Constant) and x.slice.value in ('SKIP', 'REQUIRES', 'IGNORE_WANT'):
+                return True
         return False
 
     LABELS = {'text', 'dsrc', 'dcnt', 'want'}
@@ -173,8 +178,12 @@ class _InlineMethods:
                         n += 1
         return n >= 2
 
+    @staticmethod
+    def _is_static(m):
+        return len(m.decorator_list) == 1 and isinstance(m.decorator_list[0], ast.Name) and m.decorator_list[0].id == 'staticmethod'
+
     def _eligible(self, host, m):
-        if m is host or m.decorator_list or m.args.vararg or m.args.kwarg or len(m.body) > 80:
+        if m is host or (m.decorator_list and not self._is_static(m)) or m.args.vararg or m.args.kwarg or len(m.body) > 80:
             return False
         if self.host_key == ('DocTest', 'run'):
             if not self._carries_obligation_sites(m):
@@ -205,7 +214,7 @@ class _InlineMethods:
             if call is not None and isinstance(call.func, ast.Attribute) and isinstance(call.func.value, ast.Name) and host.args.args \
                     and call.func.value.id == host.args.args[0].arg and call.func.attr in methods and self._eligible(host, methods[call.func.attr]):
                 try:
-                    out += self._expand(st, call, target, host, methods[call.func.attr])
+                    out += self._expand(st, call, target, host, methods[call.func.attr], has_recv=not self._is_static(methods[call.func.attr]))
                     continue
                 except ValueError:
                     pass
